@@ -209,7 +209,6 @@ impl Screen {
             return; // No changes.
         }
 
-        self.dirty.retain(|y| *y < lines);
         self.dirty.extend(0..lines);
 
         if lines < self.lines {
@@ -230,6 +229,7 @@ impl Screen {
         }
 
         (self.lines, self.columns) = (lines, columns);
+        self.dirty.retain(|y| *y < lines);
         self.set_margins(None, None);
         self.ensure_hbounds();
         self.ensure_vbounds(None);
